@@ -179,6 +179,11 @@ func ruleFieldDispatch(c *Ctx) []Ob {
 					}
 				}
 				s.check(good, "dest:"+n, c.InstrPos(call), "destination is base + f.Offset of the looked-up field", "destination pointer is not base + Offset of the looked-up field")
+				// a value decoder writes the value, not the field slot: for an optional (pointer) field the two differ, so the
+				// destination must have gone through the pointer-level allocation
+				if n != "tDecoder.mallocIfPointer" {
+					s.check(viaMallocIfPointer(arg, 0), "dest-level:"+n, c.InstrPos(call), "destination went through mallocIfPointer (value address, not the field slot)", n+" is given the address of the field slot itself: for an optional (pointer) field the decoder overwrites the pointer and the memory after it instead of a freshly allocated value")
+				}
 			}
 		}
 	}
@@ -541,6 +546,36 @@ func ruleRequired(c *Ctx) []Ob {
 			}
 		}
 		s.check(overReq && errOK, "test:loop", c.InstrPos(t), "every required id is tested; a missing one returns the required-field exception", "the post-loop check does not test every id of sd.requiredFieldIDs with a missing one returning newRequiredFieldNotSetException")
+		// the exception names the field whose id was tested: the name argument is computed from that id (directly, or from
+		// the looked-up field of that id)
+		for _, b := range fn.Blocks {
+			for _, ins := range b.Instrs {
+				ex, ok := ins.(*ssa.Call)
+				if !ok || ex.Call.StaticCallee() == nil || ex.Call.StaticCallee().Name() != "newRequiredFieldNotSetException" || len(ex.Call.Args) == 0 {
+					continue
+				}
+				uses := false
+				seen := map[ssa.Value]bool{}
+				var walk func(v ssa.Value, d int)
+				walk = func(v ssa.Value, d int) {
+					if v == nil || seen[v] || d > 8 {
+						return
+					}
+					seen[v] = true
+					if v == t.Call.Args[1] || path(v) == path(t.Call.Args[1]) {
+						uses = true
+						return
+					}
+					if ins, ok := v.(ssa.Instruction); ok {
+						for _, op := range ins.Operands(nil) {
+							walk(*op, d+1)
+						}
+					}
+				}
+				walk(ex.Call.Args[0], 0)
+				s.check(uses, "test:names-field", c.InstrPos(ex), "the exception's field name is derived from the id that failed the test", "the required-field exception is built from "+path(ex.Call.Args[0])+", which does not depend on the id that failed the test: the error names another field")
+			}
+		}
 		// dominates success return
 		hdr := t.Block().Idom()
 		okDom := true
@@ -650,6 +685,42 @@ func ruleRequired(c *Ctx) []Ob {
 		}
 		if !found {
 			s.bad("requiredFieldIDs:append", c.Pos(ff.Pos()), "requiredFieldIDs is never filled")
+		}
+	}
+	// Go field indices: reflect.Type.Field / reflect.Value.Field take a position in the Go struct, a different index space
+	// from the descriptor's (tagged fields sorted by id): the argument must be the counter of a loop below NumField()
+	for _, mfn := range c.ModuleFuncs(pkgReflect, pkgDefs) {
+		for _, b := range mfn.Blocks {
+			for _, ins := range b.Instrs {
+				call, ok := ins.(*ssa.Call)
+				if !ok || call.Call.Method == nil && call.Call.StaticCallee() == nil {
+					continue
+				}
+				name, pkgp := "", ""
+				if call.Call.IsInvoke() {
+					name, pkgp = call.Call.Method.Name(), call.Call.Method.Pkg().Path()
+				} else if f := call.Call.StaticCallee(); f != nil {
+					name, pkgp = f.Name(), fnPkgPath(f)
+				}
+				if pkgp != "reflect" || name != "Field" {
+					continue
+				}
+				idxv := call.Call.Args[len(call.Call.Args)-1]
+				okIdx := false
+				if phi, ok := idxv.(*ssa.Phi); ok && isLoopHeader(phi.Block()) {
+					for _, cd := range domConds(b) {
+						if bo, ok := cd.V.(*ssa.BinOp); ok && bo.Op == token.LSS && cd.Truth && bo.X == ssa.Value(phi) {
+							if nf, ok := bo.Y.(*ssa.Call); ok && (nf.Call.IsInvoke() && nf.Call.Method.Name() == "NumField" || nf.Call.StaticCallee() != nil && nf.Call.StaticCallee().Name() == "NumField") {
+								okIdx = true
+							}
+						}
+					}
+				}
+				if _, isConst := idxv.(*ssa.Const); isConst {
+					okIdx = true
+				}
+				s.check(okIdx, "go-field-index:"+shortFn(mfn), c.InstrPos(call), "reflect Field index is a loop counter below NumField()", "reflect Field("+path(idxv)+") is indexed with a value that is not a counter over the Go struct's fields: descriptor indices (tagged fields sorted by id) and Go field positions differ, so the wrong field is named or read")
+			}
 		}
 	}
 	return s.obs
@@ -1450,4 +1521,39 @@ func ruleExceptionKinds(c *Ctx) []Ob {
 		}
 	}
 	return s.obs
+}
+
+// viaMallocIfPointer: every origin of the pointer is the result of the optional-pointer allocation helper (or of a module
+// helper that returns its result).
+func viaMallocIfPointer(v ssa.Value, depth int) bool {
+	if depth > 6 {
+		return false
+	}
+	switch x := v.(type) {
+	case *ssa.Phi:
+		for _, e := range x.Edges {
+			if !viaMallocIfPointer(e, depth+1) {
+				return false
+			}
+		}
+		return true
+	case *ssa.Extract:
+		return viaMallocIfPointer(x.Tuple, depth+1)
+	case *ssa.Call:
+		f := x.Call.StaticCallee()
+		if f == nil {
+			return false
+		}
+		if shortFn(f) == "tDecoder.mallocIfPointer" {
+			return true
+		}
+		if f.Blocks != nil && fnPkgPath(f) == pkgReflect {
+			for g := range staticReach(f) {
+				if shortFn(g) == "tDecoder.mallocIfPointer" {
+					return true
+				}
+			}
+		}
+	}
+	return false
 }
